@@ -1,8 +1,12 @@
 SPECIFICATION Spec
 CONSTANTS
   Clients = {1, 2, 3}
+  Procs = {1, 2, 3, 4}
+  ClientOf <- CO_1223
+  NilProcs = {3, 4}
+  LoadProcs = {1, 2, 3, 4}
   Keys = {1, 2}
-  MaxInc = 2
+  MaxInc = 3
   MaxLoads = 3
   MaxDel = 1
   MaxLockExpire = 1
@@ -16,6 +20,9 @@ CONSTANTS
   BugReturnPh = FALSE
   BugNoLiveness = FALSE
   BugDelNoCompare = FALSE
+  BugNoAdopt = FALSE
+  BugNilFastPath = FALSE
+  BugStealPlainDel = FALSE
   Record = TRUE
   GenLen = 30
 INVARIANTS GenEmit
